@@ -9,7 +9,7 @@ use crate::*;
 pub struct Game<'a> {
     pub tr: &'a mut Trace,
     pub stack: Vec<GameState>,
-    pending_pop: usize,
+    pub pending_pop: usize,
     pub dead: bool, // a panic was logged; the trace is rejected there, stop driving
     pub acts: usize,
 }
